@@ -304,8 +304,19 @@ def _oneshot(name, n, what, aadlen):
     return o.encrypt(data), None
 
 
-def k_seg(name, n, cuts, what, aadlen=0):
-    """what in enc|dec|aad: processing the data in pieces (cut at `cuts`) gives the one-shot result"""
+def k_seg(name, n, cuts, what, aadlen=0, inplace=False):
+    """what in enc|dec|aad: processing the data in pieces (cut at `cuts`) gives the one-shot result; inplace: every piece is
+    processed with output= the (mutable) buffer that holds the piece itself"""
+    if inplace:
+        def piece(fn, b):
+            buf = bytearray(b)
+            r = fn(buf, output=buf)
+            if r is not None:
+                raise AssertionError('None expected with output=')
+            return bytes(buf)
+    else:
+        def piece(fn, b):
+            return fn(b)
     c = CFG[name]
     more = {'msg_len': n, 'assoc_len': aadlen} if c.get('ccm') else {}
     aad = det(('a', name, aadlen), aadlen)
@@ -322,7 +333,7 @@ def k_seg(name, n, cuts, what, aadlen=0):
         o = make(name, **more)
         if c.get('aead') and aadlen:
             o.update(aad)
-        out = b''.join(o.encrypt(data[a:b]) for a, b in zip(pos, pos[1:]))
+        out = b''.join(piece(o.encrypt, data[a:b]) for a, b in zip(pos, pos[1:]))
         if c.get('flush'):
             out += o.encrypt()
         return exp, (out, o.digest() if c.get('aead') else None)
@@ -335,7 +346,7 @@ def k_seg(name, n, cuts, what, aadlen=0):
         o = make(name, **more)
     if c.get('aead') and aadlen:
         o.update(aad)
-    out = b''.join(o.decrypt(ct[a:b]) for a, b in zip(pos, pos[1:]))
+    out = b''.join(piece(o.decrypt, ct[a:b]) for a, b in zip(pos, pos[1:]))
     if c.get('flush'):
         out += o.decrypt()
     if c.get('aead'):
@@ -714,6 +725,24 @@ def t_seg(rec, rnd, tier, name, what):
             gen = _cuts(n, three, c.get('align', 1))
         for cut in gen:
             rec.case(cid, 'seg', name=name, n=n if what != 'aad' else 20, cuts=cut, what=what, aadlen=n if what == 'aad' else (13 if c.get('aead') else 0))
+
+
+    # the same with every piece processed IN PLACE (output= the buffer holding the piece): state carried from one call to the next
+    # (chaining value, key stream position, MAC input) must not be read back from a buffer the call has overwritten
+    if what in ('enc', 'dec') and not c.get('flush') and c['mode'] != 'OPENPGP' and c['cipher'] != 'ARC4':      # (these offer no output=)
+        bs = 64 if c.get('stream') and c['cipher'] != 'ARC4' else (16 if c['cipher'] in ('AES', 'ARC4') else 8)
+        cid2 = rec.declare('%s.segmentation.%s.inplace' % (name, what),
+                           '%s: %s in pieces, each piece in place (output= the piece), == one-shot result' % (name, {'enc': 'encrypt()', 'dec': 'decrypt()'}[what]),
+                           'all two-way cuts and the three-way cuts at multiples of the block, lengths {block, 2*block, 3*block, 3*block+3}',
+                           'state carried across calls vs. in-place output (' + name + ')')
+        for n in (bs, 2 * bs, 3 * bs, 3 * bs + 3):
+            if n % c.get('align', 1):
+                continue
+            for cut in _cuts(n, False, c.get('align', 1)):
+                rec.case(cid2, 'seg', name=name, n=n, cuts=cut, what=what, aadlen=13 if c.get('aead') else 0, inplace=True)
+            for a in range(0, n + 1, bs):
+                for b in range(a, n + 1, bs):
+                    rec.case(cid2, 'seg', name=name, n=n, cuts=(a, b), what=what, aadlen=13 if c.get('aead') else 0, inplace=True)
 
 
 INPS = ['bytes', 'bytearray', 'memoryview', 'memoryview_rw', 'mv_off1', 'mv_off7', 'mv_off13']
